@@ -110,7 +110,7 @@ def parse(text):
             continue
         if 'Could not communicate with subprocess!' in line:
             p.cant_communicate += 1
-        if line == 'The following test left new threads behind:' and i + 2 < n:
+        if line.endswith('The following test left new threads behind:') and i + 2 < n:
             p.thread_reports.append((lines[i + 1], lines[i + 2]))
         if isinstance(section, tuple):
             kind, acc = section
